@@ -325,6 +325,16 @@ def daily(ck, S, DF, RID="C09-O5"):
     # message date = lmsg.time().date()
     gi = S.g(ri)
     calls = [n for n in S.calls_to(ri, "checkDailyRotation")]
+    folded = False
+    if not calls and cd.id == ri.id:
+        # the daily check is written inline in rotateIfNeeded (the caller plays the helper's role): the record's date is what the inline
+        # comparison with the file's date reads, and "the call" is that comparison
+        cmps = [n for n in ri.all_nodes() if ne(n)]
+        if len(cmps) == 1:
+            a_, b_ = cmps[0]["args"]
+            calls = [{"args": [a_ if is_this_field(b_, DF) else b_], "id": cmps[0]["id"], "l": cmps[0].get("l"), "c": cmps[0].get("c"), "k": "call"}]
+            calls[0] = dict(cmps[0], args=[a_ if is_this_field(b_, DF) else b_])
+            folded = True
     ck.require(len(calls) == 1, "rotateIfNeeded calls checkDailyRotation %d times" % len(calls))
     arg = skip_copies(calls[0]["args"][0])
     src = deref_local(ri, arg)
@@ -354,6 +364,14 @@ def daily(ck, S, DF, RID="C09-O5"):
         writers.add(f.id)
     may_write = lambda call: call.get("fn") in F.fns and bool(F.reachable_from([call["fn"]], virtual=False) & writers)
     if asg:
+        # only the assignments that are not overwritten again count: one that is followed by another one on every path (the inline daily block's own
+        # re-dating in front of the final one) is not the value the write sees
+        def overwritten(a_):
+            sa_ = gi.site_of(a_)
+            others_ = {gi.site_of(b_) for b_ in asg if b_ is not a_} - {None, sa_}
+            return bool(others_) and sa_ is not None and gi.must_pass(others_, frm=sa_, keep=keep) and sa_ not in others_
+        finals = [a_ for a_ in asg if not overwritten(a_)]
+        asg = finals or asg
         a_sites = set(gi.sites_of_nodes(asg))
         must = gi.must_pass(a_sites, keep=keep)
         later = [c for c in ri.calls() if c.get("fn") in F.fns and may_write(c) and any(gi.can_reach(s, gi.site_of(c), keep=keep) for s in a_sites)]
